@@ -3,6 +3,7 @@ Line-protocol driver: one JSON request per line on stdin, one JSON answer per li
 Imports only model files (no Mathlib) so that it links as a native executable.
 -/
 import Cte.Model.Json
+import Cte.Model.Process
 import Cte.Model.Cli
 import Cte.Model.Decode
 import Cte.Model.Check
@@ -643,6 +644,34 @@ def opThor (req : J) : J :=
             | none => J.null),
          ("stdout_writes", J.ofNat (Cli.stdoutOf r.writes).length)]
 
+/-- op `locktrace`: the lock events recorded by the hook (thread index, lock / unlock, table) replayed on the process machine,
+`threads` threads each computing the indicators `runs` times -/
+def opLockTrace (req : J) : J :=
+  let n := match req.get? "threads" with | some (J.num false k 0) => k | _ => 0
+  let k := match req.get? "runs" with | some (J.num false k 0) => k | _ => 0
+  let tbl : String → Option Proc.Tbl := fun s => match s with
+    | "july" => some .july | "meta" => some .meta_ | "monthly" => some .monthly | _ => none
+  let evs : List (Option Proc.Obs) := match req.get? "events" with
+    | some (J.arr l) => l.map (fun e => match e with
+        | J.arr [J.num false i 0, J.str a, J.str t] =>
+          (tbl t).bind (fun tb => match a with
+            | "lock" => some ⟨i, .lock tb⟩
+            | "unlock" => some ⟨i, .unlock tb⟩
+            | _ => none)
+        | _ => none)
+    | _ => []
+  if evs.any Option.isNone then J.obj [("accepted", J.bool false), ("why", J.str "an event names no known table or action")] else
+  let tr := evs.filterMap id
+  let fuel := 16 * (k + 1)
+  let rec go (s : Proc.St) (idx : Nat) : List Proc.Obs → Option Proc.St × Nat
+    | [] => (some s, idx)
+    | o :: r => match Proc.replayOne fuel s o with
+      | some s1 => go s1 (idx + 1) r
+      | none => (none, idx)
+  match go (Proc.indicatorThreads n k) 0 tr with
+  | (some s, _) => J.obj [("accepted", J.bool true), ("finished", J.bool s.finished), ("events", J.ofNat tr.length)]
+  | (none, idx) => J.obj [("accepted", J.bool false), ("first_rejected", J.ofNat idx)]
+
 def handle (line : String) : String :=
   match J.parse line with
   | none => "{\"error\":\"bad json\"}"
@@ -675,6 +704,7 @@ def handle (line : String) : String :=
       | some (J.str "fshobst") => opFshobst req
       | some (J.str "raypoly") => opRayPoly req
       | some (J.str "noop") => J.obj []
+      | some (J.str "locktrace") => opLockTrace req
       | some (J.str "cli") => opCli req
       | some (J.str "thor") => opThor req
       | some (J.str "load") => withModel req (fun _ => J.obj [("ok", J.bool true)])
